@@ -9,7 +9,7 @@ import numpy as np
 from .numerics import RefGrid
 
 TYPE_NAMES = {1: [['A'], ['polymer']], 2: [['A', 'B'], ['polymer', 'solvent'], ['B', 'A']],
-              3: [['A', 'B', 'C'], ['p', 'q', 's'], ['C', 'A', 'B']]}
+              3: [['A', 'B', 'C'], ['p', 'q', 's'], ['C', 'A', 'B']], 4: [['A', 'B', 'C', 'D'], ['w', 'x', 'y', 'z']]}
 
 HARD_POTS = ('HardSphere', 'HardCoreLennardJones', 'Exponential')
 
@@ -37,6 +37,8 @@ def gen_domain(rng, small=False):
         dr = rng.choice([0.2, 0.25, 0.3])
     if rng.random() < 0.25:
         dom = {'length': N, 'via': 'dk', 'value': math.pi / (dr * N)}
+    elif rng.random() < 0.04:
+        dom = {'length': N, 'via': 'dr', 'value': 1}        # an *integer* spacing: the r grid is an integer array
     else:
         dom = {'length': N, 'via': 'dr', 'value': dr}
     if rng.random() < 0.25:
@@ -111,8 +113,11 @@ def gen_omega_self(rng):
         return {'cls': 'Gaussian', 'kw': {'sigma': round(rng.uniform(0.8, 1.3), 3), 'length': rng.choice([2, 5, 10, 20, 50, 100])}}
     if r < 0.8:
         return {'cls': 'FreelyJointedChain', 'kw': {'length': rng.choice([2, 4, 10, 30, 100]), 'l': round(rng.uniform(0.8, 1.3), 3)}}
-    if r < 0.9:
+    if r < 0.88:
         return {'cls': 'GaussianRing', 'kw': {'sigma': round(rng.uniform(0.8, 1.3), 3), 'length': rng.choice([3, 6, 12, 24])}}
+    if r < 0.91:
+        # only the near-freely-jointed branch of DiscreteKoyama can be constructed with the pinned numpy (lp ~ 4/3 for l = sigma = 1)
+        return {'cls': 'DiscreteKoyama', 'kw': {'sigma': 1.0, 'l': 1.0, 'length': rng.choice([4, 8, 12]), 'lp': rng.choice([1.334, 1.3334])}}
     return {'cls': 'FromArray', 'kw': {'form': 'debye', 'l': round(rng.uniform(0.8, 1.2), 3), 'n': rng.choice([2, 3, 4]), 'with_k': rng.random() < 0.5}}
 
 
